@@ -262,7 +262,7 @@ func UnmarshalYAML(bs []byte, v interface{}) error {
 }
 
 func Unmarshal(bs []byte, v interface{}) error {
-	if bs[0] == '{' {
+	if 0 < len(bs) && bs[0] == '{' {
 		return json.Unmarshal(bs, v)
 	}
 
@@ -364,7 +364,7 @@ func GetHTTPRequest(ctx *core.Context, r *http.Request) (map[string]interface{},
 				return nil, err
 			}
 
-			if js[0] == '{' {
+			if 0 < len(js) && js[0] == '{' {
 				// If the body looks like JSON, treat it as JSON.
 				if err = json.Unmarshal(js, &m); err != nil {
 					return nil, err
@@ -419,7 +419,8 @@ func (s *HTTPService) ServeHTTP(w http.ResponseWriter, r *http.Request) {
 		return
 	}
 
-	switch DWIMURI(ctx, m["uri"].(string)) { // Sorry.
+	uri, _ := m["uri"].(string) // ProcessRequest will complain if not.
+	switch DWIMURI(ctx, uri) { // Sorry.
 	case "/api/sys/admin/connstates":
 		counts := s.connStates.Get()
 		js, err := json.Marshal(&counts)
